@@ -4,9 +4,13 @@ correspond: for every exactly representable operator class and for random expres
   (depth <= 4) the implementation's matrices of A, A.H (and A.N, used by C04) are extracted with
   basis vectors and compared with the matrices the Lean model computes for `denote e`,
   `denote (adj e)`, `denote (normal e)`; plus A(x) == M x on Gaussian-integer x.
-proved (Lean): the adjoint algebra and, for every exactly representable leaf class except MatMul/RightMatMul, the
-  leaf pairing itself for all valid symbolic parameters (Props/C01Leaves.lean: `adj_denote_leaves`), so that for
-  trees over those classes <A x, y> = <x, A.H y> is a theorem about the model without a leaf hypothesis.
+proved (Lean): the adjoint algebra and, for every exactly representable leaf class (MatMul/RightMatMul included:
+  Props/C01MatMul.lean), the leaf pairing itself for all valid symbolic parameters (`adj_denote_leaves`), so that for
+  trees over those classes <A x, y> = <x, A.H y> is a theorem about the model without a leaf hypothesis; the adjoint
+  rules of the model are proved equal to the translation of every `_adjoint_linop` of linop.py (Gen/LinopAdjoint.lean,
+  Props/C01Gen.lean: `adj_denote_gen`); ConvolveData/Filter(+Adjoint) in 1-D and FFT/IFFT come in as `ext` leaves
+  whose entries are taken from the C08 / C05 models through the generated pairing table (Props/C01Ext, C01Fft);
+  FiniteDifference's tree is generated from the factory and compared with the real factory.
 search: the dot test <Ax,y> == <x,A.H y>, swapped shapes, A.H.H(x) == A(x) on the real objects,
   over all Linop classes, the MRI factories and random trees (exact on Gaussian integers where the
   arithmetic is exact, 1e-6 relative for FFT / NUFFT / wavelet / convolution leaves).
@@ -24,7 +28,9 @@ from harness.translate import gen as G
 
 PROPERTY = "C01"
 LEAN_MODULES = ["SigpyVerif.Props.C01", "SigpyVerif.Lemmas.C01Block", "SigpyVerif.Props.C09",
-                "SigpyVerif.Lemmas.C01Index", "SigpyVerif.Props.C01Leaves", "SigpyVerif.Props.C01LeavesGen"]
+                "SigpyVerif.Lemmas.C01Index", "SigpyVerif.Props.C01Leaves", "SigpyVerif.Props.C01MatMul",
+                "SigpyVerif.Props.C01LeavesGen", "SigpyVerif.Props.C01Gen", "SigpyVerif.Props.C01Ext",
+                "SigpyVerif.Props.C01Fft", "SigpyVerif.Props.C01Wave"]
 THEOREMS = ["SigpyVerif.C01." + t for t in [
     # algebra of entry lists (Props/C01.lean)
     "applyF_append", "applyF_compE", "applyF_conjE", "coo_adjoint", "isAdj_of_entries", "isAdj_comp", "isAdj_comp3",
@@ -65,14 +71,39 @@ THEOREMS = ["SigpyVerif.C01." + t for t in [
     # leaf pairs on the regenerated loop nests and the unconditional theorem (Props/C01LeavesGen.lean)
     "updToEnt_swap", "updToEnt_adj", "interpEntries_grid", "interp_leaf_adjoint", "gridding_leaf_adjoint",
     "a2b_b2a_entries", "b2a_a2b_entries", "numBlks_same", "updToEnt_perm", "a2b_leaf_adjoint", "b2a_leaf_adjoint",
-    "leafProved_adjOK", "adj_denote_leaves", "normal_gram_leaves",
+    "ext_leaf_adjoint", "leafProved_adjOK", "adj_denote_leaves", "normal_gram_leaves",
+    # MatMul / RightMatMul leaf pairs for all valid symbolic parameters (Props/C01MatMul.lean): loop interchange,
+    # loop form of the model's entries, the Sum over the broadcast batch axes, the two leaf theorems
+    "flatMap_swap_perm", "loop4_congr", "loop4_map", "loop4_perm_23", "loop4_perm_13", "allIdx_append", "allIdx_pair",
+    "loopify", "len_sub2", "len_sub1", "take_app2", "getI_app2_0", "getI_app2_1", "getI_append_left",
+    "swapLast2_app2", "split_last2", "matmulSem_eq_C", "bshape_length", "mem_allIdx_length", "matmulSem_iff",
+    "mem_loop4", "compE_gather_perm", "inB_app2", "bcast_app2", "saOf_norm_le", "matmulSumAxes_eq", "mm_adj_cond",
+    "mm_adj_PQT", "mmE_inRange", "loop4_eq_map", "adjE_loop4", "compE_gather_loop4", "matmul_core",
+    "matmul_leaf_adjoint", "rmatmul_leaf_adjoint",
+    # the model's adjoint rules are the translation of every `_adjoint_linop` in linop.py (Props/C01Gen.lean, about
+    # Gen/LinopAdjoint.lean); FiniteDifference's generated tree has proved leaves only
+    "multiplySumTest_spec", "matmulSumTest_spec", "multiplySumAxes_gen", "matmulSumAxes_gen", "oshOf_sum", "adjLeaf_multiply_gen", "adjLeaf_matmul_gen",
+    "adjLeaf_rmatmul_gen", "adjLeaf_eq_gen", "adjLeaf_eq_gen_simple", "adj_eq_gen", "allLeaves_imp", "adj_denote_gen",
+    "transposeSem_norm", "sumSem_norm", "leafSem0_eq_prim", "applyGen_covers",
+    "allLeaves_vstackList", "finiteDifference_leaves", "finiteDifference_adjoint",
+    # leaf classes imported from C08 through the generated pairing table (Props/C01Ext.lean)
+    "matOf_congr", "matOf_isAdj", "sum_delta_right", "conv1Params_spec", "shapeProd_single", "conv_data_entries",
+    "conv_filt_entries", "conv_leaf_proved", "adjOpaque_table", "conv_leaf_adjoint", "conv_tree_adjoint",
+    # FFT / IFFT leaves over C imported from C05's N-d table (Props/C01Fft.lean)
+    "idx_ofFn", "fft_entry_conj", "fftE_inv_eq", "ifftE_perm_adj", "fft_leaf_proved", "fft_tree_adjoint",
+    # Wavelet / InverseWavelet leaves, 1-D, real scalars, imported from C10 (Props/C01Wave.lean; partial)
+    "unitL_length", "dot_zeros", "zeros_dot", "dot_unit_right", "dot_unit_left", "wave_entry_transpose",
+    "iwaveE_perm_adj", "shapeProd_natCast", "wave_leaf_proved_partial",
 ]] + ["SigpyVerif.C09." + t for t in ["resize_transpose", "roll_inverse", "up_down_index", "b2a1_transpose_a2b1"]]
 
 MAXEL = 24  # largest input / output size of a generated operator
 
 
 def translate(ctx):
-    G.regenerate(ctx, ["Block", "UtilFormulas", "LinopFormulas", "Interp"])
+    # LinopAdjoint: every `_adjoint_linop`, the sum-axes helpers and the FiniteDifference factory (gen_c01.py);
+    # Conv*: imported (through Props/C08) by Props/C01Ext; Fourier / C10Formulas: imported (through Props/C05Nd, Props/C10) by Props/C01Fft, C01Wave
+    G.regenerate(ctx, ["Block", "UtilFormulas", "LinopFormulas", "Interp", "LinopAdjoint",
+                       "ConvFormulas", "ConvWiring", "ConvLinops", "ConvParams", "Fourier", "C10Formulas"])
 
 
 # ---- protocol helpers -----------------------------------------------------------------------
@@ -851,13 +882,32 @@ def correspond(ctx, which=("M", "MH")):
                 "the Lean model's matrix; distinct by protocol line; all cases are non-empty operators")
     ctx.assumptions += [
         "numpy slicing / roll / tile / sum / matmul / reshape / transpose contracts (exercised by the correspondence)",
-        "leaf pairing L.H = adjoint of L: proved in Lean for Identity, Reshape, Transpose, Resize, Flip, Circshift, "
-        "Downsample, Upsample, Sum, Tile, Slice, Embed, Multiply, ArrayToBlocks, BlocksToArray, Interpolate, Gridding "
-        "(adj_denote_leaves; validity side conditions: positive factors / strides / extents, 0 <= shift <= n, "
-        "non-negative explicit resize shifts, real embedding of the rational kernel weights); for MatMul and "
-        "RightMatMul the pairing is validated by the exact matrix correspondence only (hypothesis of adj_denote)",
-        "FFT, NUFFT, Kaiser-Bessel interpolation, wavelet and convolution leaves are not in the Lean model: they are "
-        "covered by the search oracle (dot test) only; their theorems belong to C05/C06/C07/C08/C10",
+        "leaf pairing L.H = adjoint of L: proved in Lean for all 19 exactly representable classes - Identity, Reshape, "
+        "Transpose, Resize, Flip, Circshift, Downsample, Upsample, Sum, Tile, Slice, Embed, Multiply, MatMul, "
+        "RightMatMul (any batch broadcasting, adjoint flag, Reshape*Sum*MatMul plumbing), ArrayToBlocks, "
+        "BlocksToArray, Interpolate, Gridding (adj_denote_leaves; validity side conditions: positive factors / "
+        "strides / extents, 0 <= shift <= n, non-negative explicit resize shifts, real embedding of the rational "
+        "kernel weights) - and, imported from C08 through the generated pairing table, for ConvolveData / "
+        "ConvolveDataAdjoint / ConvolveFilter / ConvolveFilterAdjoint in the 1-D single-channel case "
+        "(conv_leaf_proved); FiniteDifference: the tree generated from the factory has proved leaves only",
+        "the `_apply` bodies of Identity, Reshape, Transpose, Resize, Flip, Circshift, Downsample, Upsample, Sum, Slice, "
+        "Embed, ArrayToBlocks, BlocksToArray, Interpolate, Gridding, MatMul, RightMatMul are translated (applyGen) and "
+        "proved to be what the model denotes (leafSem0_eq_prim); Tile and Multiply `_apply` remain hand transcriptions tied by "
+        "the exact matrix correspondence; the numpy / util primitive semantics are the model's contracts",
+        "which class with which arguments every _adjoint_linop returns is translated from linop.py on every run "
+        "(Gen.LinopAdjoint) and proved equal to the model's adj (adjLeaf_eq_gen, adj_eq_gen); the per-class map "
+        "'attribute -> constructor parameter' is read from __init__ (super().__init__ / self.x = x), except the "
+        "normalised attributes Sum.axes, Tile.axes, Transpose.axes whose source text is pinned in gen_c01.py",
+        "FFT / IFFT (N-d, any axes, centred or not, norm='ortho'): leaves over C whose entries are the complex numbers "
+        "C05's executable table denotes; FFT.H = IFFT(same axes, center) from the generated table + C05 "
+        "ifft_table_eq_conjTranspose (fft_leaf_proved); the table itself is tied to fourier.py by C05's check",
+        "oracle-only leaves (dot test, no C01 theorem; their pairing class/arguments are pinned by adjOpaque_table): "
+        "Wavelet / InverseWavelet beyond the 1-D real case (1-D, one axis, any level / even filter pair, scalars with "
+        "trivial conjugation: wave_leaf_proved_partial from C10 iwt1_is_adjoint; N-d / multi-axis and complex scalars "
+        "are oracle-only), "
+        "multi-channel / N-D / batched convolutions (C08 has the theorems; only the 1-D single-channel entry lists "
+        "are bridged), NUFFT / NUFFTAdjoint and Kaiser-Bessel Interpolate / Gridding (irrational weights), "
+        "ToDevice / AllReduce (no arithmetic), the MRI factories (C16)",
     ]
     rng = ctx.rng
     quick = ctx.tier == "quick"
@@ -881,6 +931,50 @@ def correspond(ctx, which=("M", "MH")):
         fd.append((findiff_spec(sh, axes), leaf_build("findiff", dict(sh=sh, axes=axes))))
     bad = run_corr(ctx, fd, "finite-difference", which)
     ctx.oblige("correspondence:%s.finite-difference" % ctx.prop, "correspondence", bad == 0, "%d disagreements" % bad)
+    if ctx.prop == "C01":
+        # the tree the translator generates from the factory's source (Gen.LinopAdjoint.finiteDifference), built by
+        # the driver, against the real factory
+        fdg, lines = [], []
+        for _ in range(8 if quick else 40):
+            sh = rshape(rng, maxel=8, hi=4)
+            axes = None if rng.random() < 0.4 else rand_axes(rng, len(sh), allow_empty=False)
+            ax = list(range(len(sh))) if axes is None else [a % len(sh) for a in sorted(axes)]
+            fdg.append((findiff_spec(sh, axes), leaf_build("findiff", dict(sh=sh, axes=axes))))
+            lines.append("%s findiff %s %s" % (ctx.prop, L(sh), L(ax)))
+        replies = ctx.driver_guarded(lines)
+        bad = 0
+        for (spec, A), ln, r in zip(fdg, lines, replies):
+            ctx.count("leaf:findiff-generated")
+            ctx.case(ln, sample=dict(line=ln, reply=r[:160]) if ctx.evaluations % 7 == 0 else None)
+            bad += corr_case(ctx, spec, A, r, "finite-difference-generated", which)
+        ctx.oblige("correspondence:%s.finite-difference-generated" % ctx.prop, "correspondence", bad == 0,
+                   "%d disagreements" % bad)
+        # imported leaves: the two entry lists of the `ext` leaf of a 1-D single-channel convolution class (C08 model
+        # of the class / of the class the generated _adjoint_linop table returns; Props/C01Ext.lean proves them adjoint)
+        # against the matrices of the real operator and of its .H
+        ce, lines = [], []
+        for _ in range(24 if quick else 120):
+            kind = rng.choice(["convdata", "convdataadj", "convfilt", "convfiltadj"])
+            m, n, mode = rng.randint(1, 6), rng.randint(1, 4), rng.choice(["full", "valid"])
+            if mode == "valid" and n > m:
+                m, n = n, m
+            s = rng.choice([None, 1, 2, 3])
+            strides = None if s is None else [s]
+            if kind in ("convdata", "convdataadj"):
+                arr = [gint(rng) for _ in range(n)]
+                p = dict(dsh=[m], fsh=[n], filt=arr, mode=mode, strides=strides, mc=False)
+            else:
+                arr = [gint(rng) for _ in range(m)]
+                p = dict(dsh=[m], fsh=[n], data=arr, mode=mode, strides=strides, mc=False)
+            ce.append((["leaf", kind, p], leaf_build(kind, p)))
+            lines.append("%s convext %s %s %s %s %s %s" % (ctx.prop, kind, L([m]), L([n]), Gl(arr), mode, O(strides)))
+        replies = ctx.driver_guarded(lines)
+        bad = 0
+        for (spec, A), ln, r in zip(ce, lines, replies):
+            ctx.count("leaf:ext-" + spec[1])
+            ctx.case(ln, sample=dict(line=ln, reply=r[:160]) if ctx.evaluations % 11 == 0 else None)
+            bad += corr_case(ctx, spec, A, r, "conv-ext", which)
+        ctx.oblige("correspondence:%s.conv-ext" % ctx.prop, "correspondence", bad == 0, "%d disagreements" % bad)
     ctx.traces = ctx.evaluations
 
 
